@@ -37,7 +37,7 @@ CLAIMS = {
         "length-prefixed strings) reproduces exactly the parts (decode(encode x) = x), leave the rest of the buffer untouched, refuse "
         "sections over 65,535 bytes / more than 65,535 tags, ids, authors, kinds / events over u32, return an error for every too-small "
         "buffer, and never panic. Correspondence: constructors and all accessors on the real values vs the model, on part lists around "
-        "every u16 boundary (65,535/65,536 tags, 65,531..70,000-byte strings) and buffer lengths need-8..need+8 and 0..200. Integer members 0..10^30 around every power-of-two width through Event::from_json (the value or an error, never another value); the same parts through from_parts and through a JSON text give byte-identical filters (lists with repeated elements included); event_layout_from_source / utf8_constants_from_source tie writer, readers and the UTF-8 length classes to the source. tags_layout_from_source: Tags::output_size_needed (its additions translated into two folds on every run), the two rejections and the header of Tags::from_parts, and the read offsets of delineate / count / TagsIter / TagsStringIter are the model's, for every list of tags and every input.",
+        "every u16 boundary (65,535/65,536 tags, 65,531..70,000-byte strings) and buffer lengths need-8..need+8 and 0..200. Integer members 0..10^30 around every power-of-two width through Event::from_json (the value or an error, never another value); the same parts through from_parts and through a JSON text give byte-identical filters (lists with repeated elements included); event_layout_from_source / utf8_constants_from_source tie writer, readers and the UTF-8 length classes to the source. tags_layout_from_source: Tags::output_size_needed (its additions translated into two folds on every run), the two rejections and the header of Tags::from_parts, and the read offsets of delineate / count / TagsIter / TagsStringIter are the model's, for every list of tags and every input. tags_writer_from_source: the header writes and the two write loops of Tags::from_parts, translated statement by statement into random-access buffer writes with the moving p, are the model's tagsFromParts for every list of tags and every buffer (loop invariant, unbounded).",
    note=PROOF_NOTE + "The JSON constructors are decided under C01/C07/C03 (parseEvent_wf: a successful parse wrote the encoding of a sized event).",
    technique="Lean 4 proof (layout lemmas: decode-after-encode by induction over tags/strings) + differential correspondence with a direct oracle on accessor values",
    design="6/C19"),
@@ -82,7 +82,7 @@ CLAIMS = {
         "its text (with any trailing input, into any sufficient buffer with any prior contents) consumes exactly the text and yields exactly the bytes of "
         "from_parts, whose accessors return the original event; underneath json_unescape(json_escape s) = s for every UTF-8 s (unescape_escape_id), so "
         "escaping is injective. Correspondence + direct oracle: from_parts -> as_json -> Python json (same seven "
-        "values) -> from_json into dirty buffers, plus 4 alternative renderings per event, all byte-identical to from_parts; ==, Hash and the owned event agree (EQL). event_layout_from_source / escape_constants_from_source / safe_char_from_source: the writer of Event::from_parts (translated statement by statement), the accessor offsets, the escaper's named characters and is_safe_char as the source spells them on this run are the model's. tags_layout_from_source: the same for the tag section (size fold, rejections, header, first offset, reader offsets of tags.rs).",
+        "values) -> from_json into dirty buffers, plus 4 alternative renderings per event, all byte-identical to from_parts; ==, Hash and the owned event agree (EQL). event_layout_from_source / escape_constants_from_source / safe_char_from_source: the writer of Event::from_parts (translated statement by statement), the accessor offsets, the escaper's named characters and is_safe_char as the source spells them on this run are the model's. tags_layout_from_source: the same for the tag section (size fold, rejections, header, first offset, reader offsets of tags.rs). tags_writer_from_source: the translated write loops of Tags::from_parts produce encodeTags for every list of tags and leave the rest of the buffer alone.",
    note=PROOF_NOTE + "The theorems are about the model's as_json/from_json; that the Rust functions are these is the correspondence (incl. the exhaustive \\uXXXX sweep). That == and Hash are byte-wise is checked on the real values only (EQL request). Non-UTF-8 strings (constructible only with from_parts) are outside round_trip: as_json refuses or mangles them, as the property allows.",
    technique="Lean 4 proof (parse well-formedness + decode-after-encode; completeness over inductive JSON grammars) + differential correspondence with Python json",
    design="6/C02"),
